@@ -755,6 +755,111 @@ def run(ck, only=None):
             a = drv.ask(f"new 32 1 0 1 - 0 1 {spec['pck']} {rights} 00")
             so.compare(("rights", rights), "ok" if r[0] == "ok" else r[0], a, "constructor with invalid kdk access rights: implementation vs model")
 
+    # ---------------- 2b. KeyDerivator call sites: the class (constructor -> KDK, get_block_key) vs the generated call sites vs the ROM-side KDF,
+    # every access-rights value x both key lengths the same number of times
+    ss = ck.stream("kdf_sites", "KeyDerivator(pck, timestamp, key_length, kdk_access_rights): .kdk and .get_block_key(n) for EVERY access-rights value 0..3 x key length "
+                   "128/256 (uniform: each of the 8 combinations equally often) x PCK 128/256 bit x timestamps / block numbers at 0/1/2^32-1/random: implementation vs model "
+                   "(generated kdkCall / blkCall + kdfData); oracle: both keys equal the documented KDF under THESE access rights (ROM side) and differ from the keys "
+                   "under every other access-rights value; non-trivial = distinct argument tuple")
+    for rep in range(ck.budget(6, 60)):
+        for rights in range(4):
+            for klen in (128, 256):
+                pck = rng.randbytes(rng.choice([16, 32]))
+                ts = rng.choice([1, U32, (1 << 64) - 1, rng.getrandbits(64) or 1, rng.getrandbits(31) or 1])
+                n = rng.choice([0, 1, 2, 255, 256, U32, rng.getrandbits(32), rng.getrandbits(10)])
+                inp = (pck.hex(), ts, klen, rights, n)
+                ss.note(inp, cls=f"rights={rights}/key={klen}")
+                kd = pyres(F.KeyDerivator, pck, ts, klen, rights)
+                if not ss.expect(kd[0] == "ok", inp, "KeyDerivator cannot be constructed for valid arguments", kd):
+                    continue
+                kdk = pyres(lambda: bytes(kd[1].kdk))
+                bk = pyres(lambda: bytes(kd[1].get_block_key(n)))
+                if not ss.expect(kdk[0] == "ok" and bk[0] == "ok" and len(kdk[1]) == klen // 8 and len(bk[1]) == klen // 8, inp,
+                                 "KeyDerivator does not return keys of the requested size", (kdk, bk)):
+                    continue
+                if drv is None:
+                    continue
+                ss.compare((inp, "kdk"), kdk[1].hex(), drv.ask(f"kdk {pck.hex()} {ts} {klen} {rights}"), "KDK: KeyDerivator vs model through the generated call site")
+                ss.compare((inp, "blk"), bk[1].hex(), drv.ask(f"blk {kdk[1].hex()} {n} {klen} {rights}"), "block key: get_block_key vs model through the generated call site")
+                for r2 in range(4):
+                    a = drv.ask(f"romkdf {pck.hex()} {ts} {r2} 0 {klen}")
+                    if not re.fullmatch(r"[0-9a-f]{32}([0-9a-f]{32})?", a):
+                        ss.compare((inp, "romkdf"), "<16 or 32 bytes hex>", a[:80], "the ROM KDF driver op answered in an unexpected shape")
+                        break
+                    b = drv.ask(f"romkdf {a} {n} {r2} 1 {klen}")
+                    if not re.fullmatch(r"[0-9a-f]{32}([0-9a-f]{32})?", b):
+                        ss.compare((inp, "romkdf"), "<16 or 32 bytes hex>", b[:80], "the ROM KDF driver op answered in an unexpected shape")
+                        break
+                    if r2 == rights:
+                        ss.expect(kdk[1].hex() == a, inp, "the KDK is not the documented KDF of (PCK, timestamp) under the configured access rights", kdk[1].hex(), a)
+                        ss.expect(bk[1].hex() == b, inp, "the block key is not the documented KDF of (KDK, block number) under the configured access rights", bk[1].hex(), b)
+                    else:
+                        ss.expect(kdk[1].hex() != a and bk[1].hex() != b, (inp, r2), "a key does not depend on the kdk access rights (same key under another value)", r2)
+
+    # ---------------- 2c. validate() and export(cert_block=...): foreign signing key refused; override of the same length = the other block's container
+    sv = ck.stream("validate_override", "(a) a SecureBinary31 whose signature provider holds ANOTHER key than the certificate block names: export() must raise an SPSDK error "
+                   "(model: validateSb); (b) export(cert_block=b) with b = the export of a second certificate block of the same length (same keys, other ISK user data) or "
+                   "b = b'' / None: real bytes vs model exportOv, ROM model accepts and returns the commands; (c) an override of another length: implementation vs model "
+                   "only (image_total_length keeps the object's own block length); non-trivial = distinct (container, case)")
+    for _ in range(ck.budget(14, 150)):
+        cmds = gen_stream(rng, None, ncmds=rng.choice([0, 1, 3]))
+        spec = gen_spec(rng, ops=gen_ops(rng, cmds, 1))
+        case = rng.choice(["foreign", "same", "same", "empty", "longer"])
+        if case == "same":
+            spec.update(isk_curve=spec["isk_curve"] or spec["root_curve"], user_data=hexs(rng.randbytes(rng.choice([4, 16, 36]))))
+        inp = (spec, case)
+        sv.note(inp, cls=case)
+        built = pyres(build_real, spec)
+        if not sv.expect(built[0] == "ok", inp, "a well-formed container specification cannot be built", built):
+            continue
+        sb, cert, hl = built[1]
+        okc = all(pyres(lambda c=c: sb.sb_commands.add_command(mk_cmd(c)))[0] == "ok" for c in cmds)
+        if not sv.expect(okc, inp, "an in-range command cannot be constructed"):
+            continue
+        sign_curve = spec["isk_curve"] or spec["root_curve"]
+        sign_name = "imgkey" if spec["isk_curve"] else f"srk{spec['used']}"
+        signer = raw_pub(sign_curve, sign_name)
+        prov, ov = signer, None
+        if case == "foreign":
+            other = "srk0" if sign_name != "srk0" else "srk1"
+            sb.signature_provider = sig_provider(sign_curve, other)
+            prov = raw_pub(sign_curve, other)
+        elif case == "same":
+            b2 = pyres(build_real, dict(spec, user_data=hexs(rng.randbytes(len(bytes.fromhex(spec["user_data"]))))))
+            if b2[0] != "ok":
+                continue
+            ov = b2[1][1]
+        elif case == "empty":
+            ov = b""
+        elif case == "longer":
+            ov = cert + bytes(rng.choice([4, 16]))
+        res = pyres(lambda: sb.export(cert_block=ov) if ov is not None else sb.export())
+        if case == "foreign":
+            sv.expect(res[0] == "E:spsdk", inp, "export() with a signature provider whose key is not the one the certificate block names is not refused", res[0], "E:spsdk")
+        elif case in ("same", "empty"):
+            if not sv.expect(res[0] == "ok", inp, "export(cert_block=<block of the same length>) of a well-formed container raises", res):
+                continue
+        total = 60 + hl + len(cert) + 2 * hl
+        if drv is not None:
+            eff_ts = int(sb.timestamp)
+            a = drv.ask(f"new {hl} {spec['fw']} {spec['flags']} {eff_ts} {hexs(spec['desc'].encode('ascii'))} {int(spec['nxp'])} "
+                        f"{int(spec['enc'])} {spec['pck']} {spec['rights']} {hexs(cert)}")
+            for c in cmds:
+                drv.ask("add " + " ".join(c))
+            if res[0] == "ok":
+                eff = ov if ov else cert
+                sig = res[1][60 + hl + len(eff):60 + hl + len(eff) + 2 * hl]
+            else:
+                sig = b"\x00"
+            m = drv.ask(f"expfull {signer.hex()} {prov.hex()} {hexs(sig)} {'-' if ov is None else 'empty' if ov == b'' else ov.hex()}") if a == "ok" else a
+            sv.compare(inp, "ok:" + res[1].hex() if res[0] == "ok" else res[0], m, f"validate()/export(cert_block=...) [{case}]: implementation vs model")
+            if case in ("same", "empty") and res[0] == "ok":
+                st_, rom = rom_query(drv, sv, inp, rom_line(dict(spec, ts=eff_ts), res[1]))
+                if st_ != "bad" and sv.expect(st_ == "ok", inp, "the ROM model refuses the container exported with a certificate block override of the same length", f"rej:{rom}", "accepted"):
+                    sv.expect(rom["cmds"] == [" ".join(c) for c in cmds], inp, "commands decoded from the override container differ from the commands supplied", rom["cmds"][:6])
+                    sv.expect(all(ecdsa_ok(*o) for o in rom["obs"]), inp, "a signature of the override container does not verify (ECDSA, cryptography)")
+                    sv.expect(res[1][60 + hl:total - 2 * hl] == (ov or cert), inp, "the certificate block of the file is not the override")
+
     # ---------------- 3. containers: histories of add_command / export on ONE object
     sh = ck.stream("histories", "containers over {P-256,P-384 roots} x {no ISK, ISK P-256, ISK P-384} x 1..4 root keys x used root x {encrypted, plain} x PCK 128/256 x "
                    "access rights 0..3 x timestamps/firmware versions/flags at field limits x descriptions of 0..20 chars; 0..40 commands over all 14 kinds; stream "
